@@ -211,7 +211,7 @@ namespace vf
       }
 
       template< typename Pos >
-      void check_position( const char* where, const char* rule, const char* p, const Pos& pos )
+      void check_position( const char* where, const char* rule, const char* p, const Pos& pos, int subinput = -1 )
       {
          if( !check_positions || aborted ) {
             return;
@@ -223,7 +223,17 @@ namespace vf
             ++eol_observations;
          }
          if( pos.byte != b || pos.line != l || pos.column != c ) {
-            flag( "C06", std::string( "position:" ) + where + ( lazy ? ":lazy" : ":eager" ) + ( in_subinput() ? ":subinput" : "" ), std::string( where ) + " of " + rule + " at offset " + std::to_string( off( p ) ) + ": reported byte/line/column " + std::to_string( pos.byte ) + "/" + std::to_string( pos.line ) + "/" + std::to_string( pos.column ) + ", consumed prefix gives " + std::to_string( b ) + "/" + std::to_string( l ) + "/" + std::to_string( c ) );
+            const bool sub = subinput < 0 ? in_subinput() : ( subinput != 0 );
+            // input class of the consumed prefix: CR LF consumed under the cr_crlf policy (recorded finding O6)
+            bool crlf = false;
+            if( eol_policy == 4 ) {
+               for( const char* q = base; q + 1 < p; ++q ) {
+                  if( q[ 0 ] == '\r' && q[ 1 ] == '\n' ) {
+                     crlf = true;
+                  }
+               }
+            }
+            flag( "C06", std::string( "position:" ) + where + ( lazy ? ":lazy" : ":eager" ) + ":eol" + std::to_string( eol_policy ) + ( sub ? ":subinput" : "" ) + ( crlf ? ":crlf-under-cr_crlf" : "" ), std::string( where ) + " of " + rule + " at offset " + std::to_string( off( p ) ) + " (eol policy " + std::to_string( eol_policy ) + ", initial " + std::to_string( byte0 ) + "/" + std::to_string( line0 ) + "/" + std::to_string( column0 ) + "): reported byte/line/column " + std::to_string( pos.byte ) + "/" + std::to_string( pos.line ) + "/" + std::to_string( pos.column ) + ", consumed prefix gives " + std::to_string( b ) + "/" + std::to_string( l ) + "/" + std::to_string( c ) );
          }
       }
 
@@ -732,7 +742,7 @@ namespace vf
          }
          // ---- C06 at exit -------------------------------------------------------------
          if( how != 2 ) {
-            m.check_position( "exit", rn.c_str(), after.ptr, p );
+            m.check_position( "exit", rn.c_str(), after.ptr, p, ( m.top_input && f.before.input_id != m.top_input ) ? 1 : 0 );
          }
          // ---- C08 -------------------------------------------------------------------
          if( f.enabled ) {
